@@ -375,35 +375,45 @@ class Fn:
             self._decompose(c, pol, res)
         return res
 
-    def _decompose(self, c, pol, res):
+    def _decompose(self, c, pol, res, known=None):
+        """atomic consequences of "c evaluates to pol".  known(node) -> True/False/None supplies what a path
+        exploration already established about a sub-condition, which makes the otherwise undecomposable cases
+        (a && b is false, a || b is true) decomposable: !(a && b) with a known true gives !b."""
         c = self.skip(c)
         n = self.nodes[c]
         k = n['k']
         if k == 'un' and n['op'] == '!':
-            self._decompose(n['e'], not pol, res)
+            self._decompose(n['e'], not pol, res, known)
             return
         if k == 'call' and n.get('op') == '!' and n.get('opargs'):
             res.append((c, pol))
             return
         if k == 'bin' and n['op'] == '&&' and pol:
-            self._decompose(n['l'], True, res)
-            self._decompose(n['r'], True, res)
+            self._decompose(n['l'], True, res, known)
+            self._decompose(n['r'], True, res, known)
             return
         if k == 'bin' and n['op'] == '||' and not pol:
-            self._decompose(n['l'], False, res)
-            self._decompose(n['r'], False, res)
+            self._decompose(n['l'], False, res, known)
+            self._decompose(n['r'], False, res, known)
             return
         if k == 'bin' and n['op'] in ('&&', '||'):
-            # not decomposable by polarity alone; but the block that owns this terminator evaluates the
-            # right-most operand last, and on its outgoing edges the whole expression equals that operand
+            # a && b false / a || b true: nothing follows for a single operand unless the other one is known
+            # (clang's CFG joins the short-circuit edge and the evaluated-right-operand edge in the block that
+            # owns the if, so "the right operand decided" is NOT implied by reaching that block's edges)
             res.append((c, pol))
-            self._decompose(n['r'], pol, res)
+            if known is not None:
+                other = (n['op'] == '&&')       # value of the other operand that makes this one decisive
+                kl, kr = known(n['l']), known(n['r'])
+                if kl is other:
+                    self._decompose(n['r'], pol, res, known)
+                elif kr is other:
+                    self._decompose(n['l'], pol, res, known)
             return
         # inline boolean single-assignment locals
         if k == 'var' and n.get('vk') == 'local':
             d = self.single_def(n['decl'])
             if d is not None:
-                self._decompose(d, pol, res)
+                self._decompose(d, pol, res, known)
                 return
         res.append((c, pol))
 
